@@ -47,8 +47,8 @@ try:
         meta['test_suite_passes_with_change'] = p.returncode == 0
         if demo:
             env = 'PYTHONDONTWRITEBYTECODE=1 PYTHONPATH=%s'
-            a = sh('cd %s && %s timeout 300 /venv/bin/python %s %s' % (clean, env % clean, demo, clean))
-            b = sh('cd %s && %s timeout 300 /venv/bin/python %s %s' % (mut, env % mut, demo, mut))
+            a = sh('cd %s && %s timeout 900 /venv/bin/python %s %s' % (clean, env % clean, demo, clean))
+            b = sh('cd %s && %s timeout 900 /venv/bin/python %s %s' % (mut, env % mut, demo, mut))
             meta['demo_passes_unchanged'] = a.returncode == 0 and 'FAIL' not in a.stdout
             meta['demo_fails_with_change'] = b.returncode != 0 or 'FAIL' in b.stdout
         results = {}
